@@ -13,7 +13,9 @@ specification: statements are
 Terms use ("var", canonical-name) for state variables; canonical names are v0, v1 ... in order of
 first assignment, so renaming a variable in the source does not change the listing.
 Anything outside the recognised fragment raises Unstructured (callers fail closed)."""
-from .mir import Prov
+import re
+
+from .mir import Prov, callee_name, is_transparent
 
 
 class Unstructured(Exception):
@@ -38,11 +40,18 @@ def state_locals(body):
         if l == 0:
             continue
         live = [d for d in ds if not body.blocks[d[0]]["cleanup"] and d[0] in body.reachable()]
+        if 1 <= l <= body.argc:
+            whole = [d for d in live if not (d[3]["pl"] if d[2] == "assign" else d[3].get("dest") or {"p": [1]})["p"]]
+            if whole:
+                out.append(l)
+            continue
         if len(live) < 2:
             continue
         ty = body.local_ty(l) if hasattr(body, "local_ty") else None
         if ty == "()":
             continue
+        if ty == "bool" and not body.local_name(l):
+            continue  # drop flag
         vals = []
         for (bi, si, kind, pay) in live:
             if kind == "assign" and pay["rv"]["k"] == "use" and pay["rv"]["a"].get("ty") == "()":
@@ -81,7 +90,16 @@ def listing(body, extra_state=()):
                 out.append(("set", p.lplace(pl), p._rvalue(s["rv"], True)))
             elif pl["l"] == 0 and not pl["p"]:
                 out.append(("ret", p._rvalue(s["rv"], True)))
+            elif pl["p"] and pl["p"][0] == "*" and (body.local_ty(pl["l"]).startswith("&mut ") or 1 <= pl["l"] <= body.argc):
+                out.append(("store", p.lplace(pl), p._rvalue(s["rv"], True)))
         t = blk["t"]
+        if t["k"] == "call":
+            for a in t["args"]:
+                pl = a.get("pl") if a["k"] in ("copy", "move") else None
+                if pl is not None and not pl["p"] and body.local_ty(pl["l"]).startswith("&mut "):
+                    if not is_transparent(callee_name(t)) and not re.search(r"Iterator>::next$|Iterator::next$", callee_name(t)):
+                        out.append(("do", callee_name(t), tuple(p.operand(x) for x in t["args"])))
+                    break
         if t["k"] == "call" and t.get("dest") is not None:
             d = t["dest"]
             if d["l"] in state and not d["p"]:
@@ -91,7 +109,7 @@ def listing(body, extra_state=()):
         return out
 
     def nsucc(bi):
-        return [s for s in body.succ(bi) if s in reach and not body.blocks[s]["cleanup"]]
+        return [s for s in body.succ(bi) if s in reach and not body.blocks[s]["cleanup"] and body.blocks[s]["t"]["k"] != "unreachable"]
 
     def walk(bi, stop, loop_hdr, depth=0):
         """statements from bi up to (not including) stop"""
@@ -128,9 +146,12 @@ def listing(body, extra_state=()):
                 join = body.ipdom().get(cur)
                 arms = {}
                 for v, tgt in t["ts"]:
-                    arms["=" + v] = walk(tgt, join, loop_hdr, depth + 1)
-                arms["otherwise"] = walk(t["o"], join, loop_hdr, depth + 1)
-                out.append(("if", cond, arms))
+                    if tgt in succs:
+                        arms["=" + v] = walk(tgt, join, loop_hdr, depth + 1)
+                if t["o"] in succs:
+                    arms["otherwise"] = walk(t["o"], join, loop_hdr, depth + 1)
+                if any(arms.values()):
+                    out.append(("if", cond, arms))
                 cur = join
                 continue
             succs = nsucc(cur)
@@ -145,3 +166,42 @@ def listing(body, extra_state=()):
         return out
 
     return walk(0, None, None), names
+
+
+def flat(stmts, ctx=()):
+    """[(ctx, stmt)] in listing order; ctx = tuple of ("while"|"if", cond-term, sense-or-arm)"""
+    out = []
+    for s in stmts:
+        if s[0] == "while":
+            out.append((ctx, ("loop", s[1], s[2])))
+            out += flat(s[3], ctx + (("while", s[1], s[2]),))
+        elif s[0] == "if":
+            for arm, body in s[2].items():
+                out += flat(body, ctx + (("if", s[1], arm),))
+        else:
+            out.append((ctx, s))
+    return out
+
+
+def fmt(stmts, show, ind=0):
+    """human-readable rendering (for reports)"""
+    lines = []
+    for s in stmts:
+        pad = " " * ind
+        if s[0] == "set":
+            lines.append("%s%s := %s" % (pad, show(s[1]), show(s[2])))
+        elif s[0] == "store":
+            lines.append("%s*%s = %s" % (pad, show(s[1]), show(s[2])))
+        elif s[0] == "ret":
+            lines.append("%sreturn %s" % (pad, show(s[1])))
+        elif s[0] == "do":
+            lines.append("%s%s(%s)" % (pad, s[1], ", ".join(show(a) for a in s[2])))
+        elif s[0] == "while":
+            lines.append("%swhile %s [%s]" % (pad, show(s[1]), s[2]))
+            lines += fmt(s[3], show, ind + 2)
+        elif s[0] == "if":
+            lines.append("%sif %s" % (pad, show(s[1])))
+            for k, v in s[2].items():
+                lines.append("%s [%s]" % (pad, k))
+                lines += fmt(v, show, ind + 3)
+    return lines
